@@ -392,6 +392,54 @@ harness!(callback_writers, unwind = 7, |s| {
     vcover!(fail_at < N);
 });
 
+
+
+// ------------------------------------------------------------------ C20: buffers manipulated through accessors
+// `Cursor::buf_mut()` hands out `&mut Buf`; with a `Vec` buffer safe code can change its length.
+// Stack reads use `get_unchecked(pos - 1)`: sound only while `pos <= len`.
+pub mod c20_cursor_buf_mut {
+    use super::*;
+    pub fn run<S: Src>(s: &mut S, restrict: bool) {
+        let len = s.usize();
+        let pos = s.usize();
+        let newlen = s.usize();
+        s.assume(len <= 3 && pos <= len && newlen <= 3);
+        if restrict {
+            // complement of the recorded known finding: the buffer is not shrunk below the position
+            s.assume(newlen >= pos);
+        }
+        let mut v: Vec<u8> = Vec::with_capacity(4);
+        let mut i = 0;
+        while i < len {
+            v.push(s.u8());
+            i += 1;
+        }
+        let mut c = Cursor::new_at_pos(v, pos).ok().unwrap();
+        {
+            let b = c.buf_mut();
+            if newlen <= b.len() {
+                b.truncate(newlen);
+            } else {
+                while b.len() < newlen {
+                    b.push(0);
+                }
+            }
+        }
+        // any of these may return anything or panic, but must not read out of bounds
+        let _ = <_ as ReadWords<u8, Stack>>::read(&mut c);
+        let _ = <_ as ReadWords<u8, Queue>>::read(&mut c);
+        let _ = c.write(1);
+        let (b, _) = c.into_buf_and_pos();
+        core::mem::forget(b);
+    }
+}
+harness!(c20_cursor_buf_mut_restricted, unwind = 6, |s| {
+    c20_cursor_buf_mut::run(s, true);
+});
+harness!(c20_cursor_buf_mut_unrestricted, unwind = 6, |s| {
+    c20_cursor_buf_mut::run(s, false);
+});
+
 dispatch!(
     cursor_script_mut_slice,
     cursor_none_is_sticky,
@@ -400,5 +448,7 @@ dispatch!(
     revcursor_space_left,
     vec_stack_script,
     iter_adapters,
-    callback_writers
+    callback_writers,
+    c20_cursor_buf_mut_restricted,
+    c20_cursor_buf_mut_unrestricted
 );
